@@ -35,5 +35,5 @@ Next ==
   \/ \E n \in {1, 2} : ChildRead(1, n)
 
 Spec == Init /\ [][Next]_vars
-Export == (Len(hist') > Len(hist) /\ hist'[Len(hist')].e = "ret") => PrintT(<<"BEH", ToJson(hist')>>)
+Export == ExportRet
 =============================================================================
